@@ -19,6 +19,7 @@ RULE = (
     "sequence incl. absolute offsets; plus the round trip create_message_set -> encode_produce_request -> fetch response -> "
     "decode. non-trivial = a response with >= 1 leaf entry, or a message set containing a wrapper, a magic-1 message or a "
     "null field; distinct = distinct value tree."
+    ' The encode->decode round trip also uses Message objects with explicit timestamps (0, 1, -1, int64 bounds, None = now).'
 )
 ASSUMPTIONS = [
     "refproto's response encoders are correct for the listed API versions (self-checked; cross-checked against afkak's own "
